@@ -30,8 +30,8 @@ import numpy as _np   # used only to compute result *shapes* of indexing / broad
 from .alg import UNKNOWN, UnknownTruth
 from .cfg import ENTRY, RETURN, cfg_of
 from .domain import BaseDomain, Opaque, TypeModel
-from .interp import (ClassRef, ExcClass, FuncRef, Instance, Interp, ModelError, ModuleRef, NeedChoice, RepoRaise,
-                     Unsupported)
+from .interp import (ClassRef, ExcClass, ExcValue, FuncRef, Instance, Interp, ModelError, ModuleRef, NeedChoice,
+                     RepoRaise, Unsupported)
 from .src import AnalysisError, FuncInfo
 
 # ======================================================================================
@@ -925,6 +925,8 @@ class GuardInterp(Interp):
         self.effects = []        # {'stack': [...], 'text': str}
         self.stmt_stack = []     # (depth, fi, stmt)
         self.owned_containers = {}
+        self.threw = {}          # (where, id(stmt)) -> (fi, stmt): try-body statements that raised into a handler
+        self.done = set()        # (where, id(stmt)) of statements that completed normally
         self.unk_base = Unk.created
         self._unk_marks = []     # Unk.created at the start of each statement of stmt_stack
 
@@ -932,7 +934,9 @@ class GuardInterp(Interp):
         self.stmt_stack.append((len(self.call_stack), self.call_stack[-1], s))
         self._unk_marks.append(Unk.created)
         try:
-            return super().exec(s, env)
+            r = super().exec(s, env)
+            self.done.add((getattr(self.call_stack[-1], "where", "?"), id(s)))
+            return r
         except BaseException as e:
             if not hasattr(e, "q_stack") and not type(e).__name__.startswith("_"):
                 try:
@@ -996,6 +1000,34 @@ class GuardInterp(Interp):
         if not broke:
             self.exec_block(s.orelse, env)
 
+    def x_Try(self, s, env):
+        """As Interp.x_Try; additionally records which statement of the try body raised into a handler, so that the CFG
+        pruned for this run has no normal continuation out of that statement."""
+        depth = len(self.call_stack)
+        fi = self.call_stack[-1]
+        try:
+            try:
+                self.exec_block(s.body, env)
+            except (RepoRaise, ModelError) as e:
+                name = e.exc_name
+                for h in s.handlers:
+                    if self._handler_matches(h, name, env):
+                        base = len(self.stmt_stack)
+                        inner = [st for (d, f, st) in getattr(e, "q_stack", [])[base:] if d == depth]
+                        for st in inner[-1:]:        # the innermost statement of this frame is the one that raised
+                            self.threw[(getattr(fi, "where", "?"), id(st))] = (fi, st)
+                        if h.name:
+                            env.vars[h.name] = ExcValue(name, (str(e),))
+                        self.exec_block(h.body, env)
+                        break
+                else:
+                    raise
+            else:
+                self.exec_block(s.orelse, env)
+        finally:
+            if s.finalbody:
+                self.exec_block(s.finalbody, env)
+
     def x_AugAssign(self, s, env):
         if isinstance(s.target, ast.Name) and env.has(s.target.id):
             cur = env.lookup(s.target.id)
@@ -1021,6 +1053,8 @@ class Outcome:
         self.tests = dict(it.tests)
         self.steps = it.steps
         self.n_chosen = it.n_chosen
+        self.threw = dict(it.threw)
+        self.done = set(it.done)
 
     @property
     def raise_fi(self):
@@ -1043,6 +1077,18 @@ class Outcome:
     def decided_in(self, fi):
         w = fi.where
         return [(node, val) for (where, _), (f, node, val) in self.tests.items() if where == w and val is not None]
+
+    def threw_in(self, fi):
+        w = fi.where
+        return [st for (where, _), (f, st) in self.threw.items() if where == w]
+
+    def completed(self, fi, stmt):
+        """Did stmt run to normal completion (a statement of a try body that did NOT raise into its handlers)?"""
+        return (fi.where, id(stmt)) in self.done and (fi.where, id(stmt)) not in self.threw
+
+    def pruned_cfg(self, fi):
+        """CFG of fi without the edges this run is known not to take."""
+        return cfg_of(fi).pruned(self.decided_in(fi), self.threw_in(fi))
 
     def evaluated(self, fi, stmt):
         """Was the test of stmt decided by the descriptor (not by exploration, not with conflicting values)?"""
@@ -1531,7 +1577,7 @@ def dominance_problems(program, fi, outcome):
     if g is None or not cfg.has_stmt(g):
         problems.append((None, "guard statement not located in the entry point's CFG"))
         return problems, None
-    pruned = cfg.pruned(outcome.decided_in(fi))
+    pruned = outcome.pruned_cfg(fi)
     gid = pruned.node_of(g)
     reach = pruned.reachable(ENTRY, avoid={gid})
     se = static_effects(program, fi)
@@ -1558,7 +1604,7 @@ def guards_ahead(fi, outcome, guard_stmts, passed):
     es = outcome.entry_stmts()
     if not es:
         return list(guard_stmts)
-    cfg = cfg_of(fi).pruned(outcome.decided_in(fi))
+    cfg = outcome.pruned_cfg(fi)
     cur = es[-1]
     if not cfg.has_stmt(cur):
         return list(guard_stmts)
@@ -1652,7 +1698,7 @@ def guard_still_ahead(program, fi, outcome, G, F, node):
         f, cur = frames[d]
         if not isinstance(f, FuncInfo):
             return True
-        cfg = cfg_of(f).pruned(outcome.decided_in(f))
+        cfg = outcome.pruned_cfg(f)
         if not cfg.has_stmt(cur):
             return True
         cid = cfg.node_of(cur)
